@@ -12,6 +12,7 @@ import SedpackDriver.ParMap
 import SedpackDriver.Codec
 import SedpackDriver.Writer
 import SedpackDriver.Reg
+import SedpackDriver.HashConc
 open Lean
 namespace Sedpack.Drv
 
@@ -38,6 +39,7 @@ def dispatch (m : String) (j : Json) : Except String Json :=
   | "codec" => codecJ j
   | "writer" => writerJ j
   | "reg" => regJ j
+  | "hashconc" => hashConcJ j
   | _ => .error s!"unknown model {m}"
 
 end Sedpack.Drv
